@@ -125,7 +125,32 @@ def regen_facts(binary):
             with open(dst, 'w') as f:
                 f.write(new)
             log('Gen/Facts_%s.v changed' % cl)
+    regen_trans()
     return out
+
+
+TRANS_STATE = {'applicable': None, 'note': 'not run'}
+
+
+def regen_trans():
+    """Gen/FactsTransPlan.v: the planner's decision and step functions translated from the SOURCE TEXT of
+    src/boss_sync.rs as it is now (tools/rs2coq.py).  When the source is outside the translator's subset the file holds
+    the model's own definitions and says so (trans_applicable = false); the tie is then the differential one alone."""
+    sys.path.insert(0, os.path.join(VERIF, 'tools'))
+    import rs2coq
+    text, ok, note = rs2coq.generate(REPO)
+    dst = os.path.join(COQ, 'theories', 'Gen', 'FactsTransPlan.v')
+    try:
+        old = open(dst).read()
+    except OSError:
+        old = None
+    if old != text:
+        os.makedirs(os.path.dirname(dst), exist_ok=True)
+        with open(dst, 'w') as f:
+            f.write(text)
+        log('Gen/FactsTransPlan.v changed (%s)' % note)
+    TRANS_STATE['applicable'], TRANS_STATE['note'] = ok, note
+    return ok, note
 
 
 def coq_project():
@@ -226,10 +251,10 @@ def count_obligations(vfiles):
     return n
 
 
-def print_assumptions(module, theorems, timeout=300):
+def print_assumptions(module, theorems, timeout=300, pkg='Props'):
     """Ask Coq for the assumptions of each theorem of RJ.Props.<module>. Returns {thm: [axioms]}.
     Raises BrokenTie if a theorem does not exist (e.g. its proof no longer compiles)."""
-    src = 'From RJ Require Import Props.%s.\n' % module
+    src = 'From RJ Require Import %s.%s.\n' % (pkg, module)
     for t in theorems:
         src += 'Goal True. idtac "@@BEGIN %s". Abort.\nPrint Assumptions %s.\nGoal True. idtac "@@END". Abort.\n' % (t, t)
     d = tempfile.mkdtemp(prefix='vassume', dir=CACHE)
@@ -384,6 +409,41 @@ class Run:
             self.broke('proof', module, 'theorems missing: %r' % missing)
         self.discharged = self.obligations if not (hits or bad or missing) else 0
         return not (hits or bad or missing)
+
+    TRANS_THEOREMS = ['trans_needs_delete', 'trans_needs_copy_total', 'trans_process_src', 'trans_process_dest', 'trans_plan']
+
+    def check_translation(self):
+        """The Gallina regenerated from the source text of boss_sync.rs (needs_delete, needs_copy, process_src_entry,
+        process_dest_entry; tools/rs2coq.py) is proved equal to the hand-written model (Proofs/TransPlanEq.v)."""
+        if TRANS_STATE['applicable'] is None:
+            regen_trans()
+        vo = 'theories/Proofs/TransPlanEq.vo'
+        ok, out = build_coq([vo])
+        info = {'applicable': TRANS_STATE['applicable'], 'note': TRANS_STATE['note'], 'theorems': {}}
+        self.extra['translator'] = info
+        self.count('translator-applicable' if TRANS_STATE['applicable'] else 'translator-fallback')
+        if not ok:
+            m = re.search(r'File "([^"]+)", line (\d+).*?\nError:?(.*?)(?:\n\n|\Z)', out, re.S)
+            where = ('%s:%s %s' % (m.group(1), m.group(2), ' '.join(m.group(3).split())[:300])) if m else out[-600:]
+            self.broke('proof', 'TransPlanEq', 'the Gallina regenerated from src/boss_sync.rs (needs_delete / needs_copy / process_src_entry / '
+                       'process_dest_entry) is no longer provably equal to the model: ' + where)
+            return False
+        hits = audit_sources(coq_sources_in_cone(vo))
+        if hits:
+            self.broke('proof', 'TransPlanEq', 'forbidden tokens in the development: ' + '; '.join(hits[:5]))
+            return False
+        try:
+            ass = print_assumptions('TransPlanEq', self.TRANS_THEOREMS, pkg='Proofs')
+        except BrokenTie as e:
+            self.broke('proof', 'TransPlanEq', str(e))
+            return False
+        bad = {t: a for t, a in ass.items() if any(x not in ALLOWED_AXIOMS for x in a)}
+        missing = [t for t in self.TRANS_THEOREMS if t not in ass]
+        info['theorems'] = {t: ('closed' if not ass.get(t) else 'axioms: ' + ', '.join(ass[t])) for t in ass}
+        if bad or missing:
+            self.broke('proof', 'TransPlanEq', 'axioms %r missing %r' % (bad, missing))
+            return False
+        return True
 
     # --- verdict
     def finish(self, search=None):
